@@ -14,8 +14,8 @@ from vt.oracles import tagselect
 
 ID = 'C19'
 TIERS = {
-    'quick': dict(shards=16, modules=30, argvs=40, pytest_runs=100, real_every=100, watchdog_s=900),
-    'thorough': dict(shards=16, modules=200, argvs=80, pytest_runs=2500, real_every=1000, watchdog_s=5000),
+    'quick': dict(shards=16, modules=30, argvs=40, pytest_runs=100, sessions=60, real_every=100, watchdog_s=900),
+    'thorough': dict(shards=16, modules=200, argvs=80, pytest_runs=2500, sessions=2500, real_every=1000, watchdog_s=5000),
 }
 RULE = ('case = generated module (1-5 classes: ReferenceTestCase subclasses, a plain unittest.TestCase, subclasses of '
         'tagged/untagged classes; 0-4 tests each, tags on methods and/or classes, optional failing test) x argv spelling '
@@ -27,10 +27,10 @@ ASSUMPTIONS = [
     'unspecified: a single-dash tdda flag placed after a positional class name; the exit status of a listing run; naming individual methods',
     'test order is unittest\'s (classes and methods sorted by name), which -f (failfast) relies on',
 ]
-REQUIRED_MONITORS = ['runs:forked', 'runs:pytest_driven', 'runs:real_crosscheck', 'log:bodies_observed', 'listing:checked', 'verbose:checked',
+REQUIRED_MONITORS = ['runs:forked', 'runs:pytest_driven', 'session:run_compared', 'runs:real_crosscheck', 'log:bodies_observed', 'listing:checked', 'verbose:checked',
                      'failfast:checked']
 REQUIRED_CLASSES = ['mode=all', 'mode=tagged', 'mode=list', 'spelling=-1', 'spelling=--tagged', 'spelling=-0',
-                    'spelling=--istagged', 'spelling=both-glued', 'spelling=both-separate', 'spelling=both-long', 'spelling=both-mixed', 'cluster=1', 'classes_named=1', 'write_flag=1', 'inheritance=1']
+                    'spelling=--istagged', 'spelling=both-glued', 'spelling=both-separate', 'spelling=both-long', 'spelling=both-mixed', 'cluster=1', 'classes_named=1', 'k_option=1', 'write_flag=1', 'inheritance=1']
 
 HEADER = '''import os, sys, unittest
 from tdda.referencetest import ReferenceTestCase, tag
@@ -101,6 +101,11 @@ def gen_argv(rng, classes, i):
     named = []
     if rng.random() < 0.3:
         named = sorted(rng.sample([c['name'] for c in classes], rng.randint(1, len(classes))))
+    kpats = []
+    if rng.random() < 0.2:
+        # unittest's -k: keeps its usual meaning next to the tdda options
+        pool = ['test_a', 'test_b', '_c', 'TestA', 'TestB.test_', 'estC', '*A.test_*', 'no_such_thing', 'test_', '*.test_d']
+        kpats = rng.sample(pool, rng.choice([1, 1, 2]))
     write = rng.choice([None, None, None, ['-W'], ['--write-all'], ['-w', 'kindx'], ['--write', 'kindx,kindy']])
     cluster = False
     args = []
@@ -125,6 +130,13 @@ def gen_argv(rng, classes, i):
         dash.insert(rng.randrange(len(dash) + 1), '-W')
         write = 'W'
     args += dash
+    ktail = []
+    for kp in kpats:
+        if rng.random() < 0.5:
+            args.insert(rng.randrange(len(args) + 1), '-k' + kp)     # glued form: anywhere among the single-dash options
+        else:
+            ktail += ['-k', kp]         # two parameters: the pattern is a word without a dash, and tdda's single-dash
+                                        # flags are only promised to work before the first such word (appended below)
     longs = []
     if flag in ('--tagged', '--istagged'):
         longs.append(flag)
@@ -137,6 +149,7 @@ def gen_argv(rng, classes, i):
     if write and write != 'W' and write[0] == '--write-all':
         longs.append('--write-all')
     rng.shuffle(longs)
+    args += ktail
     # long tdda options may sit before or after the class names
     if rng.random() < 0.5:
         args = args + longs + named
@@ -144,8 +157,8 @@ def gen_argv(rng, classes, i):
         args = args + named + longs
     if write and write != 'W' and write[0] in ('-w', '--write'):
         args += write                     # consumes the rest of the line by documentation: always last
-    return {'argv': args,
-            'argv_model': {'mode': mode, 'classes': named, 'failfast': '-f' in uflags or any('f' in a for a in args if re.match(r'^-[01vqfb]+$', a)),
+    return {'argv': args, 'k': bool(kpats),
+            'argv_model': {'mode': mode, 'classes': named, 'k': kpats, 'failfast': '-f' in uflags or any('f' in a for a in args if re.match(r'^-[01vqfb]+$', a)),
                            'verbose': '-v' in uflags or any('v' in a for a in args if re.match(r'^-[01vqfb]+$', a)),
                            'quiet': '-q' in uflags or any('q' in a for a in args if re.match(r'^-[01vqfb]+$', a))},
             'spelling': flag or both, 'cluster': cluster, 'write': bool(write)}
@@ -154,6 +167,8 @@ def gen_argv(rng, classes, i):
 def run_case(ctx, case, real=False):
     if case.get('via') == 'pytest':
         return run_pytest_case(ctx, case)
+    if case.get('via') == 'session':
+        return run_session(ctx, case)
     rec = ctx.rec
     d = os.path.join(ctx.scratch, 'c19')
     os.makedirs(d, exist_ok=True)
@@ -171,7 +186,7 @@ def run_case(ctx, case, real=False):
     mixed = any(x[2] for x in flat) and any(not x[2] for x in flat)
     rec.case(case, nontrivial=mixed and (am['mode'] != 'all' or bool(case['argv'])),
              cls=[('mode=' + am['mode'],), ('spelling=%s' % case['spelling'],), ('cluster=%d' % case['cluster'],),
-                  ('classes_named=%d' % bool(am['classes']),), ('write_flag=%d' % case['write'],), ('inheritance=%d' % inherit,),
+                  ('classes_named=%d' % bool(am['classes']),), ('k_option=%d' % bool(am.get('k')),), ('write_flag=%d' % case['write'],), ('inheritance=%d' % inherit,),
                   ('uflags=' + ''.join(sorted(a for a in case['argv'] if a in ('-v', '-q', '-f', '-b'))),)])
     env = {'VT_LOG': log, 'TDDA_FAIL_DIR': d}
     if real:
@@ -365,8 +380,83 @@ def gen_pytest_case(rng, i):
     return {'items': gen_pytest_module(rng), 'mode': mode, 'argv_pre': pre, 'argv': post, 'via': 'pytest'}
 
 
+# ------------------------------------------------------------------------------------------------------------
+# several runs of one module inside ONE process (ReferenceTestCase.main(module=..., argv=..., exit=False) called
+# repeatedly): what a run executes and lists must not depend on the runs before it
+
+def session_child(path, log, argvs):
+    import importlib.util
+    import sys
+    spec = importlib.util.spec_from_file_location('mod_under_test', path)
+    mod = importlib.util.module_from_spec(spec)
+    sys.modules['mod_under_test'] = mod
+    spec.loader.exec_module(mod)
+    from tdda.referencetest import ReferenceTestCase
+    for k, av in enumerate(argvs):
+        with open(log, 'a') as f:
+            f.write('==run %d\n' % k)
+        print('\x1e%d\x1e' % k)
+        sys.stdout.flush()
+        try:
+            ReferenceTestCase.main(module=mod, argv=['mod_under_test.py'] + list(av), exit=False)
+        except SystemExit:
+            pass
+        sys.stdout.flush()
+        sys.stderr.flush()
+    return 0
+
+
+def run_session(ctx, case):
+    rec = ctx.rec
+    d = os.path.join(ctx.scratch, 'c19s')
+    os.makedirs(d, exist_ok=True)
+    path = os.path.join(d, 'mod_under_test.py')
+    with open(path, 'w') as f:
+        f.write(module_source(case['classes']))
+    log = os.path.join(d, 'hits.log')
+    if os.path.exists(log):
+        os.unlink(log)
+    runs = case['runs']
+    rec.case(case, nontrivial=len(runs) > 1, cls=[('mode=session',), ('session_modes=' + '+'.join(r['argv_model']['mode'] for r in runs),)])
+    res = forkserver.fork_run(lambda: session_child(path, log, [r['argv'] for r in runs]), ['session'], cwd=d,
+                              env={'VT_LOG': log, 'TDDA_FAIL_DIR': d}, scratch=ctx.scratch)
+    rec.event('runs:in_process_sessions')
+    if res.timed_out or res.status != 0:
+        rec.violation('session_failed', {'case': case, 'mech': {'status': res.status}, 'facts': {'stderr_tail': res.err[-500:]}})
+        return
+    chunks = re.split(r'^==run (\d+)\n', open(log).read() if os.path.exists(log) else '', flags=re.M)
+    hits = {int(chunks[i]): [l.split()[0] for l in chunks[i + 1].splitlines() if l.strip()] for i in range(1, len(chunks) - 1, 2)}
+    outs = re.split('\x1e(\\d+)\x1e\n', res.out)
+    listed = {int(outs[i]): outs[i + 1] for i in range(1, len(outs) - 1, 2)}
+    for k, r in enumerate(runs):
+        am = dict(r['argv_model'], module='mod_under_test')
+        exp = tagselect.expected({'classes': case['classes'], 'argv_model': am})
+        got = hits.get(k, [])
+        mech = {'via': 'session', 'mode': am['mode'], 'position': 'first' if k == 0 else 'later',
+                'earlier_modes': sorted(set(x['argv_model']['mode'] for x in runs[:k]))}
+        facts = {'argv': r['argv'], 'before_it': [x['argv'] for x in runs[:k]], 'executed': got[:12], 'expected': exp['executed'][:12]}
+        rec.event('session:run_compared')
+        if sorted(got) != sorted(exp['executed']):
+            rec.violation('wrong_tests_executed', {'case': case, 'mech': mech, 'facts': facts})
+        elif am['mode'] == 'list':
+            named = set(l.strip().split('.')[-1] for l in listed.get(k, '').splitlines() if l.strip() and re.match(r'^[\w.]+$', l.strip()))
+            if named != exp['listing']:
+                rec.violation('listing_names', {'case': case, 'mech': mech, 'facts': dict(facts, listed=sorted(named), want=sorted(exp['listing']))})
+
+
 def run_shard(ctx):
     rng = ctx.rng
+    for i in range(ctx.params.get('sessions', 0)):
+        classes = gen_module(rng)
+        runs = []
+        for j in range(rng.choice([2, 3, 4])):
+            a = gen_argv(rng, classes, rng.randrange(9))
+            if a['write'] or a.get('k'):
+                continue                      # (regeneration settings are C10's business; unittest itself leaves -k patterns
+                                              #  on its shared default loader between in-process runs)
+            runs.append({'argv': a['argv'], 'argv_model': a['argv_model']})
+        if runs:
+            run_session(ctx, {'classes': classes, 'runs': runs, 'via': 'session'})
     for i in range(ctx.params.get('pytest_runs', 0)):
         run_pytest_case(ctx, gen_pytest_case(rng, i))
     k = 0
